@@ -30,7 +30,8 @@ match_cdata = re.compile(
 match_declaration = re.compile(
     r'^<!(?P<text>[^>]+)>$', re.DOTALL)
 match_processing_instruction = re.compile(
-    r'^<\?(?P<name>\w+)(?P<text>.*?)\?>', re.DOTALL)
+    # (the name is the whole target: up to white space or the closing ``?>``)
+    r'^<\?(?P<name>\w[^\s?]*)(?P<text>.*?)\?>', re.DOTALL)
 match_xml_declaration = re.compile(r'^<\?xml(?=[ /])', re.DOTALL)
 
 log = logging.getLogger('chameleon.parser')
